@@ -299,6 +299,13 @@ structure FieldGood (fac : Factory) (m : Nat) (d : DField) : Prop where
   key : (fac.create m d.num).known = true → btSize (fac.create m d.num).bt = 1 → (fac.create m d.num).array = false →
     (fac.create m d.num).isBool = false → (fac.create m d.num).bt ≠ btSint8 → (fac.create m d.num).bt ≠ btString →
     ∃ x, d.value = .uint8 x
+  /-- a field the factory knows as an array holds an array (also when its definition gives it fewer bytes than one element:
+  the repair of KF-C01-undersized) -/
+  shape : d.known = true → d.array = true → isSlice d.value = true
+
+theorem sliceOf_isSlice (bt : Nat) (ib : Bool) (xs : List Nat) (hn : NumBt bt) : isSlice (sliceOf bt ib xs) = true := by
+  rcases numBt_cases bt hn with h' | h' | h' | h' | h' | h' | h' | h' | h' | h' | h' | h' | h' | h' | h' | h' <;> subst h' <;>
+    cases ib <;> simp [sliceOf, isSlice]
 
 theorem scalarOf_not_slice (bt : Nat) (ib : Bool) (x : Nat) (hn : NumBt bt) : isSlice (scalarOf bt ib x) = false := by
   rcases numBt_cases bt hn with h' | h' | h' | h' | h' | h' | h' | h' | h' | h' | h' | h' | h' | h' | h' | h' <;> subst h' <;>
@@ -325,15 +332,29 @@ theorem good_known (fac : Factory) (m num size : Nat) (bt : Nat) (ib arr : Bool)
       cases arr with
       | true => exact fine_sliceOf bt hn ib [x] (by simp [allLt, hlt]) (by simp)
       | false => exact fine_scalarOf bt hn ib x hlt
-    refine ⟨hnum, rfl, hk.symm, fun _ => ⟨hbt.symm, hib.symm, harr.symm⟩, hfs.wf, hfs.nz, hfs.nf, ?_, ?_, ?_⟩
+    refine ⟨hnum, rfl, hk.symm, fun _ => ⟨hbt.symm, hib.symm, harr.symm⟩, hfs.wf, hfs.nz, hfs.nf, ?_, ?_, ?_, ?_⟩
     · rw [hrd]; exact hfs.na
     · intro _; rw [hrd]; exact hfs.nv
     · intro _ h1 _ _ _ _
       have h1' : btSize (fac.create m num).bt = 1 := h1
       rw [hbt] at h1'
       omega
+    · intro _ ha
+      have ha' : arr = true := ha
+      subst ha'
+      show isSlice v = true
+      rw [hx]; exact sliceOf_isSlice bt ib [x] hn
   · have hf := hro.fine
-    refine ⟨hnum, rfl, hk.symm, fun _ => ⟨hbt.symm, hib.symm, harr.symm⟩, hf.wf, hf.nz, hf.nf, ?_, ?_, ?_⟩
+    refine ⟨hnum, rfl, hk.symm, fun _ => ⟨hbt.symm, hib.symm, harr.symm⟩, hf.wf, hf.nz, hf.nf, ?_, ?_, ?_, ?_⟩
+    rotate_right
+    · intro _ ha
+      have ha' : arr = true := ha
+      show isSlice v = true
+      rcases hro with ⟨hn, ⟨_, xs, hv, _⟩ | ⟨har, _⟩⟩ | ⟨_, ⟨_, vs, hv, _⟩ | ⟨har, _⟩⟩
+      · rw [hv]; exact sliceOf_isSlice bt ib xs hn
+      · rw [ha'] at har; cases har
+      · rw [hv]; rfl
+      · rw [ha'] at har; cases har
     · rw [hrd]; exact hf.na
     · intro _; rw [hrd]; exact hf.nv
     · intro _ h1 ha hb' h2 h3
@@ -363,7 +384,7 @@ theorem good_unknown (fac : Factory) (m num size bt : Nat) (arrS : Bool) (v : Va
   have fin : ∀ (arr : Bool), Fine bt false arr v → inferArray bt v = arr →
       FieldGood fac m ⟨num, bt, false, false, decide (size > btSize bt ∧ size % btSize bt = 0), v, false⟩ := by
     intro arr hf hia
-    refine ⟨hnum, rfl, hk.symm, hkn _, hf.wf, hf.nz, hf.nf, ?_, ?_, hkn _⟩
+    refine ⟨hnum, rfl, hk.symm, hkn _, hf.wf, hf.nz, hf.nf, ?_, ?_, hkn _, fun h => by cases h⟩
     · rw [hrd]; show kfArrV bt false (inferArray bt v) v = false; rw [hia]; exact hf.na
     · intro _; rw [hrd]; show normalValue bt false (inferArray bt v) v = v; rw [hia]; exact hf.nv
   rcases hc with ⟨hu, hn, x, hx, hlt⟩ | ⟨hge, hro⟩
@@ -380,7 +401,7 @@ theorem good_unknown (fac : Factory) (m num size bt : Nat) (arrS : Bool) (v : Va
         · exact fin true (fine_strings vs hg false) (by rw [hia]; simp [h2])
         · -- fewer than two strings survive: read back in scalar mode (class `kfPiecesF`)
           have hb := strings_basic vs hg false false (Or.inr (by omega))
-          refine ⟨hnum, rfl, hk.symm, hkn _, hb.1, hb.2.1, hb.2.2.2, ?_, ?_, hkn _⟩
+          refine ⟨hnum, rfl, hk.symm, hkn _, hb.1, hb.2.1, hb.2.2.2, ?_, ?_, hkn _, fun h => by cases h⟩
           · rw [hrd]; show kfArrV btString false (inferArray btString (.sliceString vs)) (.sliceString vs) = false
             rw [hia]; simp only [h2, decide_false]; exact hb.2.2.1
           · intro hp
